@@ -63,15 +63,29 @@ def run_impl_many(programs, probe_names, clear_cache=False, jobs=None, run_cls=N
         return pool.map(_run_one, args, chunksize=max(1, len(args) // (jobs * 8)))
 
 
-def run_model_many(programs, ambient):
+def run_model_many(programs, ambient, ident_keys=False):
+    """ident_keys=True runs the diagnostic twin of the model whose copy lookup is keyed by object identity
+    (no value equality): the only difference to the model proper, used to attribute failures to finding R3."""
     lines = []
     spans = []
+    pre = 3 if ident_keys else 2
     for p in programs:
         l = progs.to_lines(p, ambient)
+        if ident_keys:
+            l = l[:2] + ['heap identkeys'] + l[2:]
         spans.append((len(lines), len(l)))
         lines += l
     res = common.run_driver(lines)
-    return [res[a + 2:a + k] for a, k in spans]
+    return [res[a + pre:a + k] for a, k in spans]
+
+
+def value_equality_matters(prog, ambient):
+    """True iff the heap the model builds for `prog` differs from the heap its identity-keyed twin builds:
+    some copy lookup conflated distinct objects that compare equal by value (the mechanism of finding R3)."""
+    p = [(['ops', c[1]] if c[0] == 'plot' else c) for c in prog if c[0] != 'collisions'] + [['dump']]
+    a = run_model_many([p], ambient)[0][-1]
+    b = run_model_many([p], ambient, ident_keys=True)[0][-1]
+    return a != b
 
 
 def compare(prog, impl_out, model_out):
